@@ -376,4 +376,50 @@ PROPS = {
         "quick": box(16, 400, 25, floor_evaluations=200, floor_shapes=20),
         "thorough": box(16, 12000, 420, floor_evaluations=2000, floor_shapes=50),
     },
+    "C03": {
+        "level": "exploration",
+        "technique": "runtime monitoring: offline exactly-once / intactness / per-thread-order "
+                     "checker over unique-id records logged by 2-8 real threads (files through "
+                     "hundreds of rotations, captured stdout/stderr of children), seeded scheduling "
+                     "noise at the hook points; distinct thread-order fingerprints reported",
+        "level_text": "Held on the executions explored: every line of the merged output parses to "
+                      "an intact id+payload, the multiset equals the records whose log call "
+                      "returned, per-thread sequence numbers are monotone; Direct/Buffered/flusher/"
+                      "Async (small pool and message capacity) x all namings with size rotation x "
+                      "cleanup threads active x stdout/stderr writers (Unbuffered, Buffered, Async, "
+                      "SupportCapture; real macros). Interleavings are sampled (OS scheduler + "
+                      "noise), not enumerated; the number of distinct fingerprints is the measure.",
+        "level_note": "Trusted: the id/payload scheme (payload is a pure function of the id), the "
+                      "family parser's chronological order. No order is required between threads.",
+        "rule": "7 of 8 cases log to files in-process, 1 of 8 to stdout/stderr in a child; every "
+                "case is non-trivial (>= 2 threads x >= 50 records); distinct = (output, driver "
+                "level, naming, write mode, threads, cleanup, noise) resp. (stream, std mode, "
+                "threads, noise)",
+        "assumptions": COMMON_ASSUMPTIONS + ["real clock (timestamps in names are real time)"],
+        "quick": box(16, 200, 25, floor_evaluations=100, floor_shapes=20),
+        "thorough": box(16, 6000, 480, floor_evaluations=1000, floor_shapes=50),
+    },
+    "C04": {
+        "level": "exploration",
+        "technique": "runtime monitoring: read-immediately-after-return presence/order oracle over "
+                     "unique-id records for flush / shutdown / last-drop / clone-drop-then-continue, "
+                     "async writer thread slowed at async_recv, a persisting-on-flush writer, and "
+                     "children that _exit(0) right after the operation (stdout/stderr)",
+        "level_text": "Held on the executions explored: directly after shutdown() returned or the "
+                      "last handle was dropped (sync buffered modes: also after flush()) every "
+                      "record whose log call had completed (joined producer threads = "
+                      "happens-before) is in the file(s) / persisted by the writer / in the "
+                      "captured stream, in order; after dropping one clone further records still "
+                      "arrive. All write modes incl. flusher intervals 1 ms / 1 s, volumes "
+                      "below/at/above the buffer capacity, with and without rotation.",
+        "level_note": "Trusted: id scheme, family parser. flush() in asynchronous mode is "
+                      "fire-and-forget by design and not asserted; records logged after shutdown "
+                      "are not expected anywhere.",
+        "rule": "7 of 8 cases in-process (Logger::build, LoggerHandle), 1 of 8 a child with "
+                "stdout/stderr; non-trivial iff the ending operation is asserted for the mode; "
+                "distinct = (output, write mode, ending op, volume buckets, threads, slowed writer)",
+        "assumptions": COMMON_ASSUMPTIONS,
+        "quick": box(16, 400, 25, floor_evaluations=200, floor_shapes=20),
+        "thorough": box(16, 12000, 420, floor_evaluations=2000, floor_shapes=50),
+    },
 }
